@@ -509,6 +509,18 @@ func newWorldKind(cut int, kind string) *world {
 	return w
 }
 
+// close releases what a case holds: the LogDB (its buffers and worker goroutines).
+func (w *world) close() {
+	if w.ldb != nil && w.ldb.real != nil {
+		_ = w.ldb.real.Close()
+		w.ldb.real = nil
+	}
+	if w.proxy != nil {
+		close(w.proxy.stop)
+		w.proxy = nil
+	}
+}
+
 func (w *world) newChunks() {
 	w.delivered = map[uint64]bool{}
 	w.chunks = hk.NewChunk(func(mb pb.MessageBatch) {
@@ -541,6 +553,7 @@ func snapshotBytes(index uint64, n uint64) []byte {
 		return b
 	}
 	sw := newWorld(-1)
+	defer sw.close()
 	sw.r.enabled = false
 	ss, err := sw.snap.VerifSave(index, 1, payloadOf(index, n))
 	if err != nil {
